@@ -19,7 +19,7 @@ EXTENDS RunSem, IOUtils
 Trace == JsonDeserialize(IOEnv.TRACE_FILE)
 VARIABLES i, cfg, s, k, seen
 vars == <<i, cfg, s, k, seen>>
-NoCfg == [n |-> 1, bufIn |-> TRUE, reset |-> FALSE, yor |-> FALSE, kind |-> "fr", m |-> 0, pv |-> FALSE]
+NoCfg == [n |-> 1, bufIn |-> TRUE, reset |-> FALSE, yor |-> FALSE, kind |-> "fr", m |-> 0, pv |-> FALSE, take |-> 0]
 Init == i = 1 /\ cfg = NoCfg /\ s = S0 /\ k = 0 /\ seen = <<>>
 
 New(r) == /\ r.e = "new" /\ cfg' = r.cfg /\ s' = S0 /\ k' = 0 /\ seen' = <<>>
